@@ -271,14 +271,14 @@ fn wdt_reset(case: &str, c: &Value, chain: &[&str]) -> Value {
 
 /// Source .. Write .. Chunks .. WalkEnd .. Parse .. Rewrite for one in-memory object (freshly built, or the end
 /// of a conversion history); `base` = content tokens of the object the history started from
-fn wdt_roundtrip(case: &str, obj: &WdtFile, hint: WowVersion, base: &Value, evs: &mut Vec<Value>) {
+fn wdt_roundtrip(case: &str, obj: &WdtFile, hint: WowVersion, base: &Value, evs: &mut Vec<Value>) -> Option<WdtFile> {
     let warnings = obj.validate();
     evs.push(json!({"ev":"Source","case":case,"toks":wdt_toks(obj),"tiles":[],"warnings":warnings.len(),"base":base}));
     let (res, bytes) = wdt_write(obj);
     let bytes = bytes.unwrap_or_default();
     evs.push(json!({"ev":"Write","case":case,"res":res,"len":bytes.len(),"tok":tok(&bytes)}));
     if res != "ok" {
-        return;
+        return None;
     }
     let (obs, cur) = walk(&bytes);
     chunk_events(case, &obs, cur, bytes.len(), evs);
@@ -292,6 +292,7 @@ fn wdt_roundtrip(case: &str, obj: &WdtFile, hint: WowVersion, base: &Value, evs:
         let b2 = b2.unwrap_or_default();
         evs.push(json!({"ev":"Rewrite","case":case,"mode":"same","res":r2,"len":b2.len(),"tok":tok(&b2)}));
     }
+    parsed
 }
 
 fn run_wdt(case: &str, c: &Value, rng: &mut Rng) -> Vec<Value> {
@@ -301,11 +302,12 @@ fn run_wdt(case: &str, c: &Value, rng: &mut Rng) -> Vec<Value> {
     evs.push(wdt_reset(case, c, &[]));
     let src = build_wdt(c, rng);
     let base = wdt_toks(&src);
-    wdt_roundtrip(case, &src, ver, &base, &mut evs);
+    // conversions (single steps and histories) start from the PARSED file, as a user of the library would have it
+    let start = wdt_roundtrip(case, &src, ver, &base, &mut evs).unwrap_or_else(|| src.clone());
     for to_s in ga(c, "conv") {
         let to_s = to_s.as_str().unwrap();
         let to = wow_version(to_s);
-        let mut w = src.clone();
+        let mut w = start.clone();
         let (cres, _) = outcome(guarded(|| convert_wdt(&mut w, ver, to)));
         if cres != "ok" {
             evs.push(json!({"ev":"Convert","case":case,"to":to_s,"res":cres,"toks":no_toks_wdt(),"wres":"-","ptoks":no_toks_wdt(),"fl":0,"hm":false,"hw":false,"hd":false}));
@@ -330,7 +332,7 @@ fn run_wdt(case: &str, c: &Value, rng: &mut Rng) -> Vec<Value> {
         let vs: Vec<&str> = ch.as_array().unwrap().iter().map(|v| v.as_str().unwrap()).collect();
         let sub = format!("{case}/h{k}");
         evs.push(wdt_reset(&sub, c, &vs));
-        let mut w = src.clone();
+        let mut w = start.clone();
         let mut from = ver;
         let mut res = "ok".to_string();
         let mut at = vs.len();
@@ -521,11 +523,19 @@ fn run_wdl(case: &str, c: &Value, rng: &mut Rng) -> Vec<Value> {
     evs.push(wdl_reset(case, c, &[], "-", mode));
     let src = build_wdl(c, rng);
     let base = wdl_toks(&src);
-    wdl_roundtrip(case, &src, ver, mode, &base, &mut evs);
+    // conversions start from the PARSED file (offset table populated), parsed for the file's own version
+    let parsed = wdl_roundtrip(case, &src, ver, mode, &base, &mut evs);
+    let start_owned: Option<WdlFile> = if mode == "same" {
+        parsed
+    } else {
+        let (_, b) = wdl_write(&WdlParser::with_version(ver), &src);
+        b.and_then(|b| wdl_parse(&WdlParser::with_version(ver), &b).1)
+    };
+    let start: &WdlFile = start_owned.as_ref().unwrap_or(&src);
     for to_s in ga(c, "conv") {
         let to_s = to_s.as_str().unwrap();
         let to = wdl_version(to_s);
-        let (cres, conv) = outcome(guarded(|| convert_wdl_file(&src, to)));
+        let (cres, conv) = outcome(guarded(|| convert_wdl_file(start, to)));
         let Some(w) = conv else {
             evs.push(json!({"ev":"Convert","case":case,"to":to_s,"res":cres,"toks":no_toks_wdl(),"wres":"-","ptoks":no_toks_wdl(),"fl":0,"hm":false,"hw":false,"hd":false}));
             continue;
@@ -555,7 +565,7 @@ fn run_wdl(case: &str, c: &Value, rng: &mut Rng) -> Vec<Value> {
         let mut at = vs.len();
         for (i, to_s) in vs.iter().enumerate() {
             let to = wdl_version(to_s);
-            let from_obj: &WdlFile = cur.as_ref().unwrap_or(&src);
+            let from_obj: &WdlFile = cur.as_ref().unwrap_or(start);
             let (r, o) = outcome(guarded(|| if api == "to" { from_obj.convert_to(to) } else { convert_wdl_file(from_obj, to) }));
             match o {
                 Some(o) => cur = Some(o),
